@@ -3,6 +3,7 @@ package c07
 import (
 	"bytes"
 	"compress/gzip"
+	"errors"
 	"fmt"
 	"runtime"
 	"strings"
@@ -40,9 +41,11 @@ var configs = []fiber.Config{
 	{RequestMethods: []string{"GET", "POST", "HEAD", "FOO"}},
 	{TrustProxy: true, ProxyHeader: "X-Forwarded-For", EnableIPValidation: true, EnableSplittingOnParsers: true, TrustProxyConfig: fiber.TrustProxyConfig{Private: true}},
 	{}, // + custom ctx
+	{BodyLimit: 64, ReadBufferSize: 512}, // + an application ErrorHandler that looks at the request (every accessor) before it answers like the default one
+	{RequestMethods: []string{"GET", "HEAD"}}, // + the same ErrorHandler, reduced method set
 }
 
-const nConfigs = 6
+const nConfigs = 8
 
 type world struct {
 	app     *fiber.App
@@ -57,6 +60,18 @@ func newWorld(cfgIdx int, helpers []Helper) *world {
 	w := &world{helpers: helpers}
 	cfg := configs[cfgIdx%nConfigs]
 	cfg.Views = vk.Views{}
+	if k := cfgIdx % nConfigs; k == 6 || k == 7 {
+		cfg.ErrorHandler = func(c fiber.Ctx, err error) error {
+			_ = vk.Observe(c, "k") // also runs for requests the server rejected before routing (bad method, too large, malformed)
+			code := fiber.StatusInternalServerError
+			var e *fiber.Error
+			if errors.As(err, &e) {
+				code = e.Code
+			}
+			c.Set(fiber.HeaderContentType, fiber.MIMETextPlainCharsetUTF8)
+			return c.Status(code).SendString(err.Error())
+		}
+	}
 	app := fiber.New(cfg)
 	if cfgIdx%nConfigs == 5 {
 		app.NewCtxFunc(func(app *fiber.App) fiber.CustomCtx { return &customCtx{DefaultCtx: *fiber.NewDefaultCtx(app)} })
@@ -578,7 +593,8 @@ func genReq(t *rapid.T) Req {
 	add("X-Requested-With", []string{"XMLHttpRequest", "x"})
 	add("Connection", []string{"close", "keep-alive", "upgrade"})
 	add("Expect", []string{"100-continue", "nope"})
-	if r.Method == "POST" || r.Method == "PUT" || rapid.IntRange(0, 9).Draw(t, "bodyany") == 0 {
+	unusual := r.Method == "FOO" || r.Method == "PURGE" || r.Method == "get" || r.Method == "PATCH"
+	if r.Method == "POST" || r.Method == "PUT" || (unusual && rapid.Bool().Draw(t, "bodyunusual")) || rapid.IntRange(0, 9).Draw(t, "bodyany") == 0 {
 		switch rapid.IntRange(0, 8).Draw(t, "bodykind") {
 		case 0:
 			r.Headers = append(r.Headers, [2]string{"Content-Type", "application/x-www-form-urlencoded"})
